@@ -130,8 +130,16 @@ def all_loops(run, F, E):
         n += len(lps)
         known = fn.short in KNOWN_LOOPS or any(f is fn for f, _ in subst)
         if not known:
-            # is it reachable from request processing / activation?
-            raise AnalysisBroken('unclassified loop in %s (%s): add it to KNOWN_LOOPS with the reason it terminates' % (fn.short, fn.pat))
+            # classified by what the loop is, not by where it lives: a range-for over a member array, or a counted loop (a local counter
+            # compared with a compile-time constant, +1 on every iterating path, not written otherwise) terminates wherever it is added
+            def terminates(st):
+                if st.get('s') == 'rfor':
+                    return st.get('extent') is not None
+                B = loops.bounded(fn, st)
+                return B is not None and B['per_iteration'] == 1 and not B['problems'] and isinstance(B['bound_val'], int) and B['bound_op'] in ('<', '<=', '!=')
+            raw = [st for st in ir.walk_stmts(fn.body) if st.get('s') in ('for', 'rfor', 'while', 'do')]
+            if not all(terminates(st) for st in raw):
+                raise AnalysisBroken('unclassified loop in %s (%s): neither a counted loop nor a range over a member array; add it to KNOWN_LOOPS with the reason it terminates' % (fn.short, fn.pat))
         for L in lps:
             if L.kind in ('range',):
                 ok = L.extent is not None or True
